@@ -113,6 +113,9 @@ def make_ops():
     A(dict(op="ctor", dims="", vals="number"))
     A(dict(op="ctor", dims="b", vals="list", ill=True))
     A(dict(op="ctor-dup-letters", ill=True))
+    for how in ("append", "prepend", "insert", "expand_by", "drop", "replace"):
+        for use in ("values-none", "values-right", "full"):
+            A(dict(op="ctor-from-edited-set", how=how, use=use))
     A(dict(op="full", dims="cb", fill="number"))
     A(dict(op="full", dims="cb", fill="row"))
     A(dict(op="full", dims="cb", fill="badshape", ill=True))
@@ -227,6 +230,33 @@ def apply_op(st, op, check):
             if op["vals"] == "number":
                 return FlodymArray(dims=DS(letters), values=5.0)
             return FlodymArray(dims=DS(letters), values=[1.0, 2.0, 3.0])
+        if name == "ctor-from-edited-set":
+            # a DimensionSet is used once (shape looked up, an array built from it), then edited in place,
+            # then used to build another array
+            dest = 2
+            D0 = DS("ab")
+            _ = D0.shape, D0.total_size
+            FlodymArray.full(D0, 1.0)
+            newd = S.make_dimension("c", ITEMS["c"])
+            how = op["how"]
+            if how == "append":
+                D0.append(newd, inplace=True)
+            elif how == "prepend":
+                D0.prepend(newd, inplace=True)
+            elif how == "insert":
+                D0.insert(1, newd, inplace=True)
+            elif how == "expand_by":
+                D0.expand_by([newd], inplace=True)
+            elif how == "drop":
+                D0.drop("a", inplace=True)
+            else:
+                D0.replace("b", newd, inplace=True)
+            shape_now = tuple(len(d.items) for d in D0)
+            if op["use"] == "values-none":
+                return FlodymArray(dims=D0)
+            if op["use"] == "values-right":
+                return FlodymArray(dims=D0, values=nd(shape_now))
+            return FlodymArray.full(D0, 2.5)
         if name == "ctor-dup-letters":
             dest = 2
             d1 = S.make_dimension("a", ITEMS["a"])
